@@ -114,6 +114,100 @@ type ptrCall struct {
 	prefix string
 }
 
+// refParamIndex: the position parameter i of fn had in the reference tree. The rules name parameters by position
+// ($2 = the request …); when the parameter list of a known function was changed (a parameter added, dropped or moved),
+// each parameter keeps the position that the parameter of the same type had in the reference signature
+// (inventory.txt), and a parameter the reference did not have gets a position no rule mentions.
+func (p *Prog) refParamIndex(fn *ssa.Function, i int) int {
+	if p.paramMap == nil {
+		p.paramMap = map[*ssa.Function][]int{}
+	}
+	m, ok := p.paramMap[fn]
+	if !ok {
+		m = nil
+		if fn.Parent() == nil {
+			if sig, known := inventorySigs()[FuncKey(fn)]; known && strings.HasPrefix(sig, "func(") {
+				// reference parameter types
+				depth, end := 0, -1
+				for j := len("func"); j < len(sig); j++ {
+					if sig[j] == '(' {
+						depth++
+					} else if sig[j] == ')' {
+						depth--
+						if depth == 0 {
+							end = j
+							break
+						}
+					}
+				}
+				if end > 0 {
+					var ref []string
+					if inner := sig[len("func("):end]; inner != "" {
+						ref = splitTop2(inner)
+					}
+					off := 0
+					if fn.Signature.Recv() != nil {
+						off = 1
+					}
+					q := func(pk *types.Package) string { return pk.Path() }
+					var cur []string
+					for j := off; j < len(fn.Params); j++ {
+						cur = append(cur, types.TypeString(fn.Params[j].Type(), q))
+					}
+					same := len(cur) == len(ref)
+					for j := range cur {
+						if same && cur[j] != ref[j] {
+							same = false
+						}
+					}
+					if !same {
+						m = make([]int, len(fn.Params))
+						for j := 0; j < off; j++ {
+							m[j] = j
+						}
+						used := make([]bool, len(ref))
+						for j, t := range cur {
+							m[off+j] = 100 + off + j
+							for k, rt := range ref {
+								if !used[k] && rt == t {
+									used[k] = true
+									m[off+j] = off + k
+									break
+								}
+							}
+						}
+					}
+				}
+			}
+		}
+		p.paramMap[fn] = m
+	}
+	if m == nil || i >= len(m) {
+		return i
+	}
+	return m[i]
+}
+
+// splitTop2 splits a parameter list at top-level commas.
+func splitTop2(s string) []string {
+	var out []string
+	depth, start := 0, 0
+	for i, ch := range s {
+		switch ch {
+		case '(', '[', '{':
+			depth++
+		case ')', ']', '}':
+			depth--
+		case ',':
+			if depth == 0 {
+				out = append(out, strings.TrimSpace(s[start:i]))
+				start = i + 1
+			}
+		}
+	}
+	return append(out, strings.TrimSpace(s[start:]))
+}
+
 // rootParam follows FieldAddr chains to a parameter of the function and returns the field path.
 func rootParam(addr ssa.Value) (*ssa.Parameter, string) {
 	path := ""
@@ -558,7 +652,7 @@ func (r *Renderer) render(v ssa.Value) string {
 				if i < len(r.bind) && r.bind[i] != "" {
 					return r.bind[i]
 				}
-				return fmt.Sprintf("$%d", i)
+				return fmt.Sprintf("$%d", r.p.refParamIndex(r.fn, i))
 			}
 		}
 		return "$?"
